@@ -48,6 +48,22 @@ func applyTrailers(expr ast.Expr, trailers []ast.Expr) ast.Expr {
 
 // Set the context for expr
 func setCtx(yylex yyLexer, expr ast.Expr, ctx ast.ExprContext) {
+	// Check the elements of sequences here so that a bad element
+	// is a SyntaxError rather than a failed type assertion in SetCtx
+	switch x := expr.(type) {
+	case *ast.Tuple:
+		setCtxs(yylex, x.Elts, ctx)
+		x.Ctx = ctx
+		return
+	case *ast.List:
+		setCtxs(yylex, x.Elts, ctx)
+		x.Ctx = ctx
+		return
+	case *ast.Starred:
+		setCtx(yylex, x.Value, ctx)
+		x.Ctx = ctx
+		return
+	}
 	setctxer, ok := expr.(ast.SetCtxer)
 	if !ok {
 		expr_name := ""
